@@ -2,6 +2,7 @@ SPECIFICATION SSpec
 CONSTANTS
   Locked = TRUE
   Bodies <- BodiesT
+  Modes <- AllModes
   TickMs <- Ticks2
   MaxTicks = 8
   MaxPre = 0
